@@ -56,6 +56,8 @@ def lean_ty(t):
             return f"(Option {lean_ty(t[1])})"
         if t[0] == "tuple":
             return "(" + " × ".join(lean_ty(x) for x in t[1]) + ")"
+        if t[0] == "dict":
+            return f"(List ({lean_ty(t[1])} × {lean_ty(t[2])}))"
         if t[0] == "fun":
             res = lean_ty(t[2])
             if t[3]:
@@ -63,7 +65,7 @@ def lean_ty(t):
             return "(" + " → ".join([lean_ty(a) for a in t[1]] + [res]) + ")"
     return {"int": "Int", "bool": "Bool", "str": "Str", "bytes": "(List Nat)", "row": "Row", "frag": "Fragment", "gap": "Gap",
             "ovres": "OverlapResult", "scaffold": "Scaffold", "bytesio": "PyRt.BytesIO", "unit": "Unit", "sink_str": "Str",
-            "sink_bytes": "(List Nat)", "nat": "Nat"}[t]
+            "sink_bytes": "(List Nat)", "nat": "Nat", "trtable": "(Char → Char)"}[t]
 
 
 # OBJECT TABLE: (type, python attribute) -> (result type, lean template, may raise)
@@ -87,14 +89,17 @@ ATTR = {
     ("ovres", "start_row_bait_overlap"): ("int", "{0}.startRowBaitOverlap", True),
     ("ovres", "end_row_bait_overlap"): ("int", "{0}.endRowBaitOverlap", True),
     ("scaffold", "rows"): (L("row"), "{0}.rows", False), ("scaffold", "name"): ("str", "{0}.name", False),
+    ("ovres", "name"): ("str", "{0}.name", False), ("ovres", "original_name"): (O("str"), "{0}.originalName", False),
+    ("ovres", "original_tags"): (O(L("str")), "{0}.originalTags", False),
 }
 # writable attributes: (type, attr) -> lean field
-FIELD = {("ovres", "start"): "start", ("ovres", "end"): "stop", ("ovres", "rows"): "rows"}
+FIELD = {("ovres", "start"): "start", ("ovres", "end"): "stop", ("ovres", "rows"): "rows", ("scaffold", "rows"): "rows"}
 # methods of self that mutate it: (type, method) -> lean function  `T → R T`
 MUT_METHOD = {("ovres", "discard_start"): "OverlapResult.discardStart", ("ovres", "discard_end"): "OverlapResult.discardEnd"}
 # pure methods: (type, method, arg types) -> (result type, template)
 PURE_METHOD = {("frag", "abuts"): (["frag"], "bool", "(Fragment.abuts {0} {1})"), ("frag", "overlaps"): (["frag"], "bool", "(Fragment.overlaps {0} {1})"),
-               ("frag", "gap_between"): (["frag"], O("int"), "(Fragment.gapBetween {0} {1})")}
+               ("frag", "gap_between"): (["frag"], O("int"), "(Fragment.gapBetween {0} {1})"),
+               ("scaffold", "reverse"): ([], "scaffold", "(Scaffold.reverse {0})")}
 ERR = {"ValueError": "value", "IndexError": "index", "KeyError": "key", "TypeError": "type", "NotImplementedError": "notImpl"}
 RESERVED = {"end", "from", "at", "in", "do", "then", "else", "if", "let", "have", "show", "fun", "match", "with", "where", "by", "open",
             "section", "namespace", "def", "theorem", "instance", "structure", "class", "deriving", "import", "max", "min", "new", "this", "rows"}
@@ -159,7 +164,7 @@ def assigned(stmts):
                     if isinstance(el, ast.Name):
                         add(el.id)
             elif isinstance(n, ast.Call) and isinstance(n.func, ast.Attribute) and n.func.attr in (
-                    "pop", "append", "extend", "write", "seek", "read", "discard_start", "discard_end"):
+                    "pop", "append", "extend", "write", "seek", "read", "discard_start", "discard_end", "add_row"):
                 r = root_of(n.func.value)
                 if r:
                     add(r)
@@ -256,6 +261,9 @@ class Kernel:
         if isinstance(e, ast.Attribute):
             # self.<declared attribute parameter>
             path = dotted(e)
+            if path in self.spec.get("dict_roots", {}):
+                nm = path.replace(".", "_")
+                return nm, env[nm]
             if path in self.spec.get("attr_params", {}):
                 ty = self.spec["attr_params"][path]
                 nm = path.replace(".", "_")
@@ -324,6 +332,9 @@ class Kernel:
                     t, ty = self.expr(el, env, binds)
                     parts.append(("x", t))
                     if ety is not None and ety != ty:
+                        if isinstance(e, ast.Tuple) and not any(isinstance(x, ast.Starred) for x in e.elts):
+                            xs = [self.expr(x, env, binds) for x in e.elts]      # a record-like tuple
+                            return "(" + ", ".join(t for t, _ in xs) + ")", ("tuple", [ty for _, ty in xs])
                         raise Unsupported("heterogeneous literal")
                     ety = ty
             if ety is None:
@@ -340,6 +351,14 @@ class Kernel:
             if cur:
                 segs.append("[" + ", ".join(cur) + "]")
             return "(" + " ++ ".join(segs) + ")", L(ety)
+        if isinstance(e, ast.Dict):
+            ks = [self.expr(k, env, binds) for k in e.keys]
+            vs = [self.expr(v, env, binds) for v in e.values]
+            if not ks or len({t for _, t in ks}) != 1 or len({t for _, t in vs}) != 1:
+                raise Unsupported("dict literal")
+            if len({ast.unparse(k) for k in e.keys}) != len(ks):
+                raise Unsupported("dict literal with a repeated key")
+            return "[" + ", ".join(f"({k}, {v})" for (k, _), (v, _) in zip(ks, vs)) + "]", ("dict", ks[0][1], vs[0][1])
         if isinstance(e, ast.BinOp):
             a, ta = self.expr(e.left, env, binds)
             b, tb = self.expr(e.right, env, binds)
@@ -519,8 +538,8 @@ class Kernel:
                 t, ty = self.expr(e.args[0], env, binds)
                 if ty == L("int"):
                     return f"(PyRt.sum {t})", "int"
-            if n == "sorted" and len(e.args) == 1:
-                raise Unsupported("sorted() (use an opaque entry)")
+            if n == "Scaffold" :
+                pass
             if n in self.spec.get("ctors", {}):
                 pass
             if n == "OverlapResult":
@@ -533,6 +552,57 @@ class Kernel:
                 v = self.fresh()
                 binds.append((v, "(mkFragment newOid " + " ".join(args) + ")", "frag"))
                 return v, "frag"
+        if isinstance(f, ast.Name) and f.id == "sorted" and len(e.args) == 1 and len(e.keywords) == 1 and e.keywords[0].arg == "key" \
+                and isinstance(e.keywords[0].value, ast.Lambda) and len(e.keywords[0].value.args.args) == 1:
+            # sorted(xs, key=lambda v: (k1, k2)) with integer keys: Python's sort is stable and compares the key tuples lexicographically
+            lam = e.keywords[0].value
+            xs, tx = self.expr(e.args[0], env, binds)
+            if not (isinstance(tx, tuple) and tx[0] == "list"):
+                raise Unsupported("sorted() of a non-list")
+            v = lam.args.args[0].arg
+
+            def keys(var):
+                env2 = dict(env)
+                env2[var] = tx[1]
+                body = ast.parse(ast.unparse(lam.body).replace(v, var), mode="eval").body if False else lam.body
+                sub = []
+                env2[v] = tx[1]
+                els = body.elts if isinstance(body, ast.Tuple) else [body]
+                out = []
+                for el in els:
+                    t, ty = self.expr(el, env2, sub)
+                    if ty != "int" or sub:
+                        raise Unsupported("sort key must be pure integers")
+                    out.append(t)
+                return out
+            ks = keys(v)
+            if len(ks) == 1:
+                ks = ks + ["(0 : Int)"]
+            if len(ks) != 2:
+                raise Unsupported("sort key arity")
+            kf = f"(fun ({mg(v)} : {lean_ty(tx[1])}) => (({ks[0]}, {ks[1]}) : Int × Int))"
+            return f"(stableSort (fun a b => PyRt.lexLe2 ({kf} a) ({kf} b)) {xs})", tx
+        if isinstance(f, ast.Name) and f.id == "Scaffold" and len(e.args) == 2 and {k.arg for k in e.keywords} == {"original_name", "original_tags"}:
+            kw = {k.arg: self.expr(k.value, env, binds) for k in e.keywords}
+            nm, tn = self.expr(e.args[0], env, binds)
+            rw, tr = self.expr(e.args[1], env, binds)
+            if tn != "str" or tr != L("row"):
+                raise Unsupported("Scaffold(...) argument types")
+            on = self.coerce(*kw["original_name"], O("str"))
+            ot = self.coerce(*kw["original_tags"], O(L("str")))
+            # `Scaffold.__init__`: `str(name)`, rows copied (`[*rows]`, or `[]` when falsy — the same list), tag/haplotype None, rank 0
+            return f"({{ name := {nm}, rows := {rw}, originalName := {on}, originalTags := {ot} }} : Scaffold)", "scaffold"
+        if isinstance(f, ast.Attribute) and f.attr == "__class__" and isinstance(f.value, ast.Name) and len(e.args) == 5 and not e.keywords:
+            base, tb = self.expr(f.value, env, binds)
+            if tb != "frag":
+                raise Unsupported("__class__ of a non-Fragment")
+            xs = [self.expr(a, env, binds) for a in e.args]
+            want = ["str", "int", "int", "int", L("str")]
+            args = [self.coerce(t, ty, w) for (t, ty), w in zip(xs, want)]
+            self.param("newOid", "nat")
+            v = self.fresh()
+            binds.append((v, "(mkFragment newOid " + " ".join(args) + ")", "frag"))
+            return v, "frag"
         if isinstance(f, ast.Name) and f.id == "OverlapResult" and not e.args:
             kw = {k.arg: k.value for k in e.keywords}
             if set(kw) != {"bait", "start", "end", "rows"}:
@@ -556,6 +626,21 @@ class Kernel:
                     return f"(strToBytes {t})", "bytes"
             b, tb = self.expr(f.value, env, binds)
             key = (tb, m)
+            if isinstance(tb, tuple) and tb[0] == "dict" and m == "get" and len(e.args) in (1, 2):
+                k, tk = self.expr(e.args[0], env, binds)
+                if tk != tb[1]:
+                    raise Unsupported("dict key type")
+                if len(e.args) == 1:
+                    return f"(dGet? {b} {k})", O(tb[2])
+                d, td = self.expr(e.args[1], env, binds)     # the default is evaluated eagerly, as in Python
+                if td != tb[2]:
+                    raise Unsupported("dict default type")
+                return f"((dGet? {b} {k}).getD {d})", tb[2]
+            if tb == "str" and m == "translate" and len(e.args) == 1:
+                tbl, tt = self.expr(e.args[0], env, binds)
+                if tt != "trtable":
+                    raise Unsupported("translate() table")
+                return f"(({b}).map {tbl})", "str"
             if key in PURE_METHOD:
                 argt, rty, tmpl = PURE_METHOD[key]
                 args = [self.coerce(*self.expr(a, env, binds), w) for a, w in zip(e.args, argt)]
@@ -681,6 +766,22 @@ class Kernel:
 
     def assign(self, s, rest, env, loop):
         binds = []
+        if len(s.targets) == 1 and isinstance(s.targets[0], ast.Name):
+            n = s.targets[0].id
+            if n in self.spec.get("ignore_locals", []):
+                return self.block(rest, env, loop)          # a value used only inside messages
+            if n in self.spec.get("messages", []):
+                # a message under construction is abstracted to "is it non-empty"
+                v = s.value
+                if isinstance(v, ast.Constant) and v.value == "":
+                    val = "false"
+                elif isinstance(v, ast.BinOp) and isinstance(v.op, ast.Add) and isinstance(v.left, ast.Name) and v.left.id == n and nonempty_text(v.right):
+                    val = "true"
+                else:
+                    raise Unsupported("message assignment shape")
+                env2 = dict(env)
+                env2[n] = "bool"
+                return [self.let(n, "bool", val)] + self.block(rest, env2, loop)
         if len(s.targets) > 1:
             # a = b = e
             if not all(isinstance(t, ast.Name) for t in s.targets):
@@ -728,6 +829,14 @@ class Kernel:
             fty = ATTR[(tb, tg.attr)][0]
             l = self.let(tg.value.id, tb, f"{{ {b} with {FIELD[(tb, tg.attr)]} := {self.coerce(t, ty, fty)} }}")
             return self.with_binds(binds, [l] + self.block(rest, env, loop))
+        if isinstance(tg, ast.Subscript) and dotted(tg.value) in self.spec.get("dict_roots", {}):
+            d = dotted(tg.value).replace(".", "_")
+            td = env[d]
+            k, tk = self.expr(tg.slice, env, binds)
+            v, tv = self.expr(s.value, env, binds)
+            if tk != td[1] or tv != td[2]:
+                raise Unsupported("dict item assignment types")
+            return self.with_binds(binds, [self.let(d, td, f"dSet {d} {k} {v}")] + self.block(rest, env, loop))
         if isinstance(tg, ast.Subscript):
             # xs[i] = v  /  self.rows[i] = v
             cont, tc = self.expr(tg.value, env, binds)
@@ -842,6 +951,11 @@ class Kernel:
                 obj = self.aliases.get(f.value.id, f.value.id)
                 n, tn = self.expr(c.args[0], env, binds)
                 return self.with_binds(binds, [self.let(obj, "bytesio", f"PyRt.BytesIO.seek {mg(obj)} {n}")] + self.block(rest, env, loop))
+            if isinstance(f.value, ast.Name) and env.get(f.value.id) == "scaffold" and m == "add_row" and len(c.args) == 1:
+                # Scaffold.add_row(row) is `self.rows.append(row)`
+                tgt = ast.Attribute(value=f.value, attr="rows", ctx=ast.Load())
+                new_call = ast.Call(func=ast.Attribute(value=tgt, attr="append", ctx=ast.Load()), args=c.args, keywords=[])
+                return self.call_stmt(new_call, rest, env, loop)
             if isinstance(f.value, ast.Name):
                 root = f.value.id
                 tb = env.get(root)
@@ -871,6 +985,17 @@ class Kernel:
             a = self.block(list(none_body) + ([] if always_exits(none_body) else rest), env, loop)
             b = self.block(list(some_body) + ([] if (some_body and always_exits(some_body)) else rest), env_some, loop)
             return [f"match {mg(x)} with", "| none =>"] + ind(a) + [f"| some {mg(x)} =>"] + ind(b)
+        def opt_obj(n):
+            return isinstance(n, ast.Name) and isinstance(env.get(n.id), tuple) and env[n.id][0] == "opt" and env[n.id][1] in ("frag", "gap", "row", "scaffold", "ovres")
+        if opt_obj(test) or (isinstance(test, ast.BoolOp) and isinstance(test.op, ast.And) and opt_obj(test.values[0])):
+            x = test if isinstance(test, ast.Name) else test.values[0]
+            notnone = ast.Compare(left=ast.Name(id=x.id, ctx=ast.Load()), ops=[ast.IsNot()], comparators=[ast.Constant(value=None)])
+            if isinstance(test, ast.Name):
+                return self.if_stmt(ast.If(test=notnone, body=s.body, orelse=s.orelse), rest, env, loop)
+            others = test.values[1:]
+            inner_test = others[0] if len(others) == 1 else ast.BoolOp(op=ast.And(), values=others)
+            inner = ast.If(test=inner_test, body=s.body, orelse=s.orelse)
+            return self.if_stmt(ast.If(test=notnone, body=[inner], orelse=s.orelse), rest, env, loop)
         c, tc = self.expr(test, env, binds)
         c = self.truthy(c, tc)
         if not exits(s.body) and not exits(s.orelse):
@@ -976,6 +1101,13 @@ class Kernel:
             i, x = s.target.elts[0].id, s.target.elts[1].id
             env_body[i], env_body[x] = "int", ty[1]
             return f"(PyRt.enumerate {t})", ty, f"(({mg(i)}, {mg(x)}) : Int × {lean_ty(ty[1])})"
+        if isinstance(s.target, ast.Tuple) and all(isinstance(x, ast.Name) for x in s.target.elts):
+            t, ty = self.expr(it, env, binds)
+            if not (isinstance(ty, tuple) and ty[0] == "list" and isinstance(ty[1], tuple) and ty[1][0] == "tuple" and len(ty[1][1]) == len(s.target.elts)):
+                raise Unsupported("tuple loop target over a non-list-of-tuples")
+            for x, tx in zip(s.target.elts, ty[1][1]):
+                env_body[x.id] = tx
+            return t, ty, "((" + ", ".join(mg(x.id) for x in s.target.elts) + ") : " + " × ".join(lean_ty(tx) for tx in ty[1][1]) + ")"
         if isinstance(s.target, ast.Name):
             t, ty = self.expr(it, env, binds)
             if not (isinstance(ty, tuple) and ty[0] == "list"):
@@ -1010,6 +1142,17 @@ def char_lit(c):
 
 def uses_only_in(node, name):
     return True
+
+
+def nonempty_text(e):
+    """is this string expression non-empty whatever its fields hold? (it contains a non-empty literal part)"""
+    if isinstance(e, ast.Constant) and isinstance(e.value, str):
+        return len(e.value) > 0
+    if isinstance(e, ast.JoinedStr):
+        return any(isinstance(v, ast.Constant) and isinstance(v.value, str) and v.value for v in e.values)
+    if isinstance(e, ast.BinOp) and isinstance(e.op, ast.Add):
+        return nonempty_text(e.left) or nonempty_text(e.right)
+    return False
 
 
 def find_def(tree, qual):
@@ -1052,10 +1195,18 @@ def translate(spec):
         for p, ty in spec.get("sinks", {}).items():
             env[sink_name(p)] = ty
             k.roots.append((sink_name(p), ty))
+        for p, ty in spec.get("dict_roots", {}).items():
+            nm = p.replace(".", "_")
+            env[nm] = ty
+            k.roots.append((nm, ty))
+            k.param(nm, ty)
         for p, ty in spec.get("params", {}).items():
             if ty in ("sink_str", "sink_bytes"):
                 env[p] = ty
                 k.roots.append((p, ty))
+            elif p not in env:
+                env[p] = ty
+                k.param(mg(p), ty)
         body = list(fn.body)
         lines = k.block(body, env, None)
     except Unsupported as e:
@@ -1067,12 +1218,29 @@ def translate(spec):
     rty = "Unit" if not parts else " × ".join(parts)
     sink_inits = [f"  let {mg(n)} : {lean_ty(t)} := []" for n, t in k.roots if t in ("sink_str", "sink_bytes")]
     # parameter order = the order of the kernel's declaration (params, attr_params, opaque, then newOid): independent of the order of use
-    order = [mg(n) for n in spec.get("params", {})] + [p.replace(".", "_") for p in spec.get("attr_params", {})] \
+    order = [p.replace(".", "_") for p in spec.get("dict_roots", {})] + [mg(n) for n in spec.get("params", {})] + [p.replace(".", "_") for p in spec.get("attr_params", {})] \
         + [p.replace(".", "_") for p in spec.get("opaque", {})] + ["newOid"]
     k.params.sort(key=lambda nt: order.index(nt[0]) if nt[0] in order else len(order))
     params = ("(fuel : Nat) " if k.uses_fuel else "") + " ".join(f"({n} : {lean_ty(t)})" for n, t in k.params)
     return (f"/- translated from {rel}::{qual}\n{doc}\n-/\ndef {lean_name} {params} : R ({rty}) :=\n" + "\n".join(sink_inits + ["  " + l for l in lines]) + "\n")
 
+
+IMP_KERNELS_2 = [
+    dict(file="assembly/indexed_assembly.py", qual="IndexedAssembly.add_scaffold", lean="IndexedAssembly_add_scaffold",
+         params={"scffld": "scaffold"}, locals={"idx": L("int")},
+         dict_roots={"self._scaffold_dict": ("dict", "str", "scaffold"), "self._scaffold_index": ("dict", "str", L("int"))}),
+    dict(file="assembly/build_assembly.py", qual="BuildAssembly.qc_sub_fragments", lean="BuildAssembly_qc_sub_fragments",
+         params={"sub_fragments": L("frag")}, attr_params={"fnd.fragment": "frag"},
+         locals={"pairs_with_gaps": L(("tuple", ["frag", "frag", O("int")]))}, messages=["msg"], ignore_locals=["pixels"]),
+    dict(file="assembly/scaffold.py", qual="Scaffold.append_scaffold", lean="Scaffold_append_scaffold",
+         params={"self": "scaffold", "othr": "scaffold", "gap": O("gap")}, roots=["self"]),
+    dict(file="assembly/overlap_result.py", qual="OverlapResult.to_scaffold", lean="OverlapResult_to_scaffold",
+         params={"self": "ovres"}, returns="scaffold"),
+    dict(file="assembly/fragment.py", qual="Fragment.reverse", lean="Fragment_reverse", params={"self": "frag"}, returns="frag"),
+    dict(file="assembly/format.py", qual="format_tpf", lean="format_tpf_imp",
+         params={"file": "sink_str"}, attr_params={"asm.header": L("str"), "asm.scaffolds": L("scaffold")},
+         opaque={"uppercase_and_underscore_to_dash": ([], "trtable", False)}),
+]
 
 IMP_KERNELS = [
     dict(file="assembly/indexed_assembly.py", qual="IndexedAssembly.find_overlaps", lean="IndexedAssembly_find_overlaps",
@@ -1105,7 +1273,7 @@ IMP_KERNELS = [
 def main():
     parts = ["/- GENERATED by harness/translate_imp.py from /repo/src — do not edit -/", "import AgpTpf.Model.PyRt", "import AgpTpf.Model.Lookup",
              "import AgpTpf.Model.Fasta", "set_option linter.unusedVariables false", "namespace AgpTpf.Gen.Imp", "open AgpTpf", ""]
-    for spec in IMP_KERNELS:
+    for spec in IMP_KERNELS + IMP_KERNELS_2:
         parts.append(translate(spec))
     parts.append("end AgpTpf.Gen.Imp\n")
     txt = "\n".join(parts)
